@@ -14,12 +14,13 @@ CLAIMS = {
             "and the allocation invariant, a completed transaction's committed meaning is the functional semantics sem_tx of its "
             "operations, for every operation list, nested buckets, spill order and tree shape (side conditions: the model's fuels -- paths "
             "< 8, new trees of height <= 64); sem_tx = the handle-based reference machine (SpecPathFacts); the tree invariant is "
-            "re-established; the engine's thresholds and sizes are pinned to the constants generated from the source. The engine MODEL "
+            "and the complete invariant (strict trees, allocation, no shared page run) are re-established, so the theorem covers every "
+            "history from the empty database at every page size (EngineAllocInv.run_txs_refines_init'); the engine's thresholds and sizes are pinned to the constants generated from the source. The engine MODEL "
             "is tied to the library by correspondence: it must reproduce every committed file page for page, every call is compared with "
             "the extracted reference, every committed file is decoded by the Gallina decoder (inv_check + contents), and the model alone is "
             "searched against the reference over exhaustive shape families with hits replayed on the library.",
-            "C01_partial: the allocation invariant of the NEW state (free / pending ids disjoint from reachable pages) is a decidable "
-            "hypothesis of the history-level theorem, evaluated on every state the model-side search visits, not yet proved; trusted: Coq "
+            "the refinement theorem is about the engine MODEL (Engine.v); that the model is what the Rust code does is checked by "
+            "correspondence, not proved; side conditions of the theorem = the model's fuels; trusted: Coq "
             "kernel + vm_compute, translator gen_consts.py, extraction (ExtrOcamlBasic only), monitor.ml, Rust harness, generators; the "
             "hand-written statements Spec.v / EngineAbs.v / SpecPath.v",
             "Coq refinement theorem for the engine model + page-for-page correspondence model <-> library + differential against the extracted reference", "6/C01, 10, App. K"),
